@@ -47,9 +47,9 @@ func (r *Rand) Intn(n int) int {
 	}
 	return int(r.U64() % uint64(n))
 }
-func (r *Rand) Bool() bool          { return r.U64()&1 == 1 }
-func (r *Rand) Chance(p float64) bool { return float64(r.U64()>>11)/float64(1<<53) < p }
-func (r *Rand) Fork() *Rand         { return NewRand(r.U64()) }
+func (r *Rand) Bool() bool              { return r.U64()&1 == 1 }
+func (r *Rand) Chance(p float64) bool   { return float64(r.U64()>>11)/float64(1<<53) < p }
+func (r *Rand) Fork() *Rand             { return NewRand(r.U64()) }
 func (r *Rand) Pick(xs []string) string { return xs[r.Intn(len(xs))] }
 func (r *Rand) Perm(n int) []int {
 	p := make([]int, n)
@@ -119,36 +119,36 @@ type Divergence struct {
 }
 
 type Result struct {
-	Property          string         `json:"property"`
-	Seed              uint64         `json:"seed"`
-	Tier              string         `json:"tier"`
-	Programs          int            `json:"programs"`
-	Evaluations       int            `json:"evaluations"`
-	DistinctNontrivial int           `json:"distinct_nontrivial"`
-	Rule              string         `json:"rule"`
-	OpHistogram       map[string]int `json:"op_histogram"`
-	TagHistogram      map[string]int `json:"tag_histogram"`
-	OutHistogram      map[string]int `json:"out_histogram"`
-	Samples           []interface{}  `json:"samples"`
-	Divergences       []Divergence   `json:"divergences"`
-	DisagreementsChecked int         `json:"disagreements_checked"`
-	Exhaustive        bool           `json:"exhaustive"`
-	Extra             map[string]interface{} `json:"extra,omitempty"`
-	WallS             float64        `json:"wall_s"`
+	Property             string                 `json:"property"`
+	Seed                 uint64                 `json:"seed"`
+	Tier                 string                 `json:"tier"`
+	Programs             int                    `json:"programs"`
+	Evaluations          int                    `json:"evaluations"`
+	DistinctNontrivial   int                    `json:"distinct_nontrivial"`
+	Rule                 string                 `json:"rule"`
+	OpHistogram          map[string]int         `json:"op_histogram"`
+	TagHistogram         map[string]int         `json:"tag_histogram"`
+	OutHistogram         map[string]int         `json:"out_histogram"`
+	Samples              []interface{}          `json:"samples"`
+	Divergences          []Divergence           `json:"divergences"`
+	DisagreementsChecked int                    `json:"disagreements_checked"`
+	Exhaustive           bool                   `json:"exhaustive"`
+	Extra                map[string]interface{} `json:"extra,omitempty"`
+	WallS                float64                `json:"wall_s"`
 }
 
 type Config struct {
-	Seed     uint64
-	Tier     string
-	Work     string // scratch dir
-	Driver   string // path of compiled Lean driver
-	Replays  string // dir for replay files
-	Corpus   string // dir of minimised past failures, run first
-	Known    []KnownFinding
+	Seed       uint64
+	Tier       string
+	Work       string // scratch dir
+	Driver     string // path of compiled Lean driver
+	Replays    string // dir for replay files
+	Corpus     string // dir of minimised past failures, run first
+	Known      []KnownFinding
 	ReplayFile string
-	Rule     string
+	Rule       string
 	Exhaustive bool
-	Extra    map[string]interface{}
+	Extra      map[string]interface{}
 }
 
 type KnownFinding struct {
@@ -503,17 +503,17 @@ func trunc(xs []string, n int) []string {
 }
 
 type replayFile struct {
-	Property      string   `json:"property"`
-	Kind          string   `json:"kind"`
-	Correspondence string  `json:"correspondence,omitempty"`
-	Theorem       string   `json:"theorem,omitempty"`
-	Seed          uint64   `json:"seed"`
-	Ops           []string `json:"ops"`
-	ImplOut       []string `json:"impl_out,omitempty"`
-	ModelOut      []string `json:"model_out,omitempty"`
-	Oracle        string   `json:"oracle_verdict,omitempty"`
-	Signature     string   `json:"signature,omitempty"`
-	HowToReplay   string   `json:"how_to_replay"`
+	Property       string   `json:"property"`
+	Kind           string   `json:"kind"`
+	Correspondence string   `json:"correspondence,omitempty"`
+	Theorem        string   `json:"theorem,omitempty"`
+	Seed           uint64   `json:"seed"`
+	Ops            []string `json:"ops"`
+	ImplOut        []string `json:"impl_out,omitempty"`
+	ModelOut       []string `json:"model_out,omitempty"`
+	Oracle         string   `json:"oracle_verdict,omitempty"`
+	Signature      string   `json:"signature,omitempty"`
+	HowToReplay    string   `json:"how_to_replay"`
 }
 
 func writeReplay(d Divergence, p Prop, cfg *Config) {
